@@ -295,6 +295,25 @@ pub fn run_irq_replay(args: &Args) -> Result<()> {
                     }
                 }
                 let reference = projection(&th.m, &prog);
+                // ---- a burst: far more requests than a small queue holds, raised while the first handler runs (I set);
+                //      every one of them must be entered after the RTE (one history per thread and run)
+                if k == t && (regs.ccr & 0x80) == 0 {
+                    th.load(&regs, &prog.pokes, Some(prog.done))?;
+                    nh += 1;
+                    th.request(vectors[0])?;
+                    let mut okb = th.boundary()? == "ok" && th.step()? == "ok";
+                    for j in 0..70usize {
+                        th.request(vectors[j % 3])?;
+                    }
+                    let mut g = 0;
+                    while okb && g < 6000 && (th.m.cpu.vh_pc() != prog.done || !th.m.cpu.vh_pending().is_empty()) {
+                        okb = th.boundary()? == "ok" && th.step()? == "ok";
+                        g += 1;
+                    }
+                    if okb {
+                        th.end()?;
+                    }
+                }
                 // ---- the run with requests injected
                 th.load(&regs, &prog.pokes, Some(prog.done))?;
                 nh += 1;
@@ -390,6 +409,11 @@ pub fn run_acc_cases(args: &Args) -> Result<()> {
                     let mut pokes = Vec::new();
                     let target = (rng.u32() & 0x00ff_fffe) | ((rng.u8() as u32) << 24);
                     poke32(&mut pokes, 4 * v as u32, target);
+                    if (36..=39).contains(&v) {
+                        // the timer's flags are set when its interrupt is accepted: acceptance touches the frame only
+                        pokes.push((0xffff82, 0xe0 | (k as u8 & 0x1f)));
+                        pokes.push((0xffff80, 0xe0));
+                    }
                     bus_pokes(&mut pokes);
                     let mut regs = Regs::default();
                     for i in 0..7 {
